@@ -110,6 +110,13 @@ def check(run, prog):
     scen = [("numpy", 2, "bottom", None, True), ("dask", 3, "center", fr_, True)]
     if run.tier == "thorough":
         scen += [("numpy", 3, "center", fr_, False), ("dask", 2, "top", None, True), ("numpy", 1, "center", None, True)]
+    # RF: the reference frequency in its accepted forms ("at infinite frequency" is written np.inf as often as np.inf * u.MHz)
+    for nchan_f in (1, 3):
+        zf = make_signal(prog, "BasebandSignal", nchan=nchan_f, freq_align="center")
+        ck.forms("RF", f_coh.where, f"coherent_dedispersion(BasebandSignal[nchan={nchan_f}], DM, ref_freq=inf)",
+                 lambda ev, v, zf=zf: ev.call(f_coh, [zf, dm], {"ref_freq": v}),
+                 [("inf * u.Hz", Num(sp.oo * Hz, kind="quantity")), ("bare inf", Num(sp.oo))],
+                 "an infinite reference frequency means the same whether or not it carries a unit")
     for backend, nchan, al, ref, has_t in scen:
         tag = f"[{backend}, nchan={nchan}, {al}, ref={'center_freq' if ref is None else 'free'}{'' if has_t else ', no start_time'}]"
         extra = (sp.Integer(2),) if nchan == 2 else ()
